@@ -59,7 +59,7 @@ Section Equiv.
   Lemma lookupHTTPHandler_sound a b :
     lookupHTTPHandler_is_equivalent str a b = true -> lookupHTTPHandler_params a = lookupHTTPHandler_params b.
   Proof.
-    destruct a as [am [au] ac], b as [bm [bu] bc].
+    destruct a as [am [au ap] ac], b as [bm [bu bp] bc].
     unfold lookupHTTPHandler_is_equivalent, lookupHTTPHandler_params. intros H. equiv_tac H str_inj.
   Qed.
 
@@ -71,6 +71,13 @@ Section Equiv.
     getPeer_is_equivalent str a b = true -> getPeer_params a = getPeer_params b.
   Proof. destruct a, b. unfold getPeer_is_equivalent, getPeer_params. intros H. equiv_tac H str_inj. Qed.
 End Equiv.
+
+(* String() equal, Path different: the HTTP lookup is de-duplicated on a rendering that does not
+   determine the parameter the resolvers read *)
+Lemma lookupHTTPHandler_refuted :
+  exists a b, lookupHTTPHandler_is_equivalent (fun x => x) a b = true /\
+              lookupHTTPHandler_resolution_params a <> lookupHTTPHandler_resolution_params b.
+Proof. exists c37_witness_a, c37_witness_b. split; [reflexivity|discriminate]. Qed.
 
 (* the parameter lists above were written for these struct shapes: a new field in
    the Go struct changes the generated count and forces a review of Dir/Model.v *)
